@@ -16,7 +16,7 @@
    probes exactly when they exceed the proven size. *)
 From Utp Require Import Base.Prelude Wire.SeqNr Wire.Header Rtt.Rtte Mtu.SegSizes Mtu.SegSizes_Proofs
   Rx.Rx Tx.Ring Tx.Segments Tx.Segments_Proofs Conn.Recovery Conn.Msg Conn.VSockRec Conn.VSock
-  Conn.VSockRun Conn.VObs Conn.C10_Pred Conn.C05_Pred Conn.C14C08_Pred Conn.VSock_Lemmas Conn.VSock_LemmasStep
+  Conn.VSockRun Conn.VObs Conn.C10_Pred Conn.C05_Pred Conn.C14C08_Pred Conn.C14_Pred2 Conn.VSock_Lemmas Conn.VSock_LemmasStep
   Conn.C14_StepLemmas Conn.C17_StepLemmas Conn.C17_Step Conn.VSock_Inv Conn.C10_Proofs.
 
 Section WithCC.
@@ -25,14 +25,20 @@ Notation vsock := (vsock CC).
 
 Section Bounds.
 (* C = the payload ceiling, F = the protocol floor *)
-Variables C F : Z.
+Variables C F TB : Z.
 Hypothesis HF : 1 <= F.
 
-Definition core (s : vsock) : segsizes * segments * list msg * list packet :=
-  (v_ss s, v_segs s, v_inbox s, v_out s).
+Definition core (s : vsock) : segsizes * segments * list msg * list packet * vopts :=
+  (v_ss s, v_segs s, v_inbox s, v_out s, v_opts s).
 
-Definition pktC (p : packet) : Prop := Z.of_nat (length (p_payload p)) <= C.
-Definition outC (s : vsock) : Prop := Forall pktC (v_out s).
+(* TB = the length of the scratch buffer the header is serialised into (fixed at creation): a SACK
+   extension is written only if it fits (fit_sack), and only control packets carry one *)
+Definition tb (s : vsock) : Prop := o_tmp_buf_len (v_opts s) = TB.
+
+Definition pktC (p : packet) : Prop :=
+  Z.of_nat (length (p_payload p)) <= C /\
+  (ch_sack (p_hdr p) = None \/ (p_payload p = [] /\ 30 <= TB)).
+Definition outC (s : vsock) : Prop := tb s -> Forall pktC (v_out s).
 
 (* ------------------------------------------------------------------ the sending path *)
 Definition sr (s s' : vsock) : Prop :=
@@ -52,29 +58,33 @@ Qed.
 
 Lemma sr_core : forall s a b, sr s a -> core b = core a -> sr s b.
 Proof.
-  unfold sr, core, outC. intros s a b (A1 & A2 & A3 & A4 & A5) E. injection E as E1 E2 E3 E4.
-  rewrite E1, E2, E3, E4. auto.
+  unfold sr, core, outC, tb. intros s a b (A1 & A2 & A3 & A4 & A5) E. injection E as E1 E2 E3 E4 E5.
+  rewrite E1, E2, E3, E4, E5. auto.
 Qed.
 
-Lemma sr_emit : forall s a b p, sr s a -> pktC p ->
-  v_ss b = v_ss a -> v_inbox b = v_inbox a -> v_segs b = v_segs a -> v_out b = p :: v_out a -> sr s b.
+Lemma sr_emit : forall s a b p, sr s a -> (tb a -> pktC p) ->
+  v_ss b = v_ss a -> v_inbox b = v_inbox a -> v_segs b = v_segs a -> v_out b = p :: v_out a ->
+  v_opts b = v_opts a -> sr s b.
 Proof.
-  unfold sr, outC. intros s a b p (A1 & A2 & A3 & A4 & A5) Hp E1 E2 E3 E4.
-  rewrite E1, E2, E3, E4. repeat split; auto.
+  unfold sr, outC, tb. intros s a b p (A1 & A2 & A3 & A4 & A5) Hp E1 E2 E3 E4 E5.
+  rewrite E1, E2, E3, E4, E5. split; [exact A1|]. split; [exact A2|]. split; [exact A3|]. split; [exact A4|].
+  intros HO T. constructor; [apply Hp; exact T|apply A5; assumption].
 Qed.
 
-Lemma sr_sent : forall s a b p i now, sr s a -> pktC p ->
+Lemma sr_sent : forall s a b p i now, sr s a -> (tb a -> pktC p) ->
   v_ss b = v_ss a -> v_inbox b = v_inbox a -> v_segs b = on_sent (v_segs a) i now ->
-  v_out b = p :: v_out a -> sr s b.
+  v_out b = p :: v_out a -> v_opts b = v_opts a -> sr s b.
 Proof.
-  unfold sr, outC. intros s a b p i now (A1 & A2 & A3 & A4 & A5) Hp E1 E2 E3 E4.
+  unfold sr, outC, tb. intros s a b p i now (A1 & A2 & A3 & A4 & A5) Hp E1 E2 E3 E4 E5.
   destruct (on_sent_sle (v_segs a) i now) as [S1 S2].
-  rewrite E1, E2, E3, E4, S2. repeat split; auto. eapply sle_trans; eauto.
+  rewrite E1, E2, E3, E4, E5, S2. split; [exact A1|]. split; [exact A2|]. split; [exact A3|].
+  split; [eapply sle_trans; eauto|].
+  intros HO T. constructor; [apply Hp; exact T|apply A5; assumption].
 Qed.
 
 Lemma sr_same : forall s a b, sr s a -> v_ss b = v_ss a -> v_segs b = v_segs a ->
-  v_inbox b = v_inbox a -> v_out b = v_out a -> sr s b.
-Proof. intros s a b H E1 E2 E3 E4. eapply sr_core; [exact H|]. unfold core. congruence. Qed.
+  v_inbox b = v_inbox a -> v_out b = v_out a -> v_opts b = v_opts a -> sr s b.
+Proof. intros s a b H E1 E2 E3 E4 E5. eapply sr_core; [exact H|]. unfold core. congruence. Qed.
 
 (* kernel-friendly: one projection of a stack of setters at a time *)
 Ltac sr_leaf := eapply sr_same; [apply sr_refl | exact eq_refl ..].
@@ -90,16 +100,30 @@ Qed.
 
 Hypothesis HC : 0 <= C.
 
-Lemma pktC_nil : forall h, pktC {| p_hdr := h; p_payload := [] |}.
-Proof. intro h. unfold pktC. cbn [p_payload length]. lia. Qed.
+Lemma pktC_nil : forall (s : vsock) h t q sk, tb s ->
+  pktC {| p_hdr := hdr_with h t q (fit_sack s sk); p_payload := [] |}.
+Proof.
+  intros s h t q sk Hb. unfold pktC. cbn [p_payload length p_hdr hdr_with ch_sack]. split; [lia|].
+  unfold fit_sack. unfold tb in Hb. rewrite Hb.
+  destruct (Z.leb_spec 30 TB); [right; split; [reflexivity|assumption]|left; reflexivity].
+Qed.
+
+Lemma next_send_opts : forall (s : vsock) n s1 o, next_send s n = (s1, o) -> v_opts s1 = v_opts s.
+Proof.
+  intros s n s1 o H. unfold next_send in H.
+  repeat break_match_hyp H; inversion H; subst; try inversion Heqp; subst; reflexivity.
+Qed.
 
 Lemma send_control_packet_sr : forall (s : vsock) h, sts s (send_control_packet s h).
 Proof.
   intros s h. unfold send_control_packet.
   destruct (v_transport_pending s); [apply sr_refl|].
-  destruct (next_send s _) as [s1 o] eqn:E. apply next_send_sr in E.
+  destruct (next_send s _) as [s1 o] eqn:E. pose proof (next_send_opts _ _ _ _ E) as Eo.
+  apply next_send_sr in E.
   destruct o; cbn [stR]; [|sr_via E|exact E|exact E].
-  unfold on_packet_sent, emit. eapply sr_emit; [exact E|apply pktC_nil|exact eq_refl ..].
+  unfold on_packet_sent, emit.
+  eapply sr_emit; [exact E| |exact eq_refl ..].
+  intro Hb. apply pktC_nil. unfold tb in *. rewrite <- Eo. exact Hb.
 Qed.
 
 Lemma send_ack_sr : forall (s : vsock), sts s (send_ack s).
@@ -115,10 +139,10 @@ Proof.
   intros s1 [|]; cbn [stR]; [sr_leaf | apply sr_refl].
 Qed.
 
-Lemma pktC_data : forall h (l : list Z) n off, n <= C ->
+Lemma pktC_data : forall h (l : list Z) n off, ch_sack h = None -> n <= C ->
   pktC {| p_hdr := h; p_payload := firstn (Z.to_nat n) (skipn off l) |}.
 Proof.
-  intros h l n off Hn. unfold pktC. cbn [p_payload].
+  intros h l n off Hs Hn. unfold pktC. cbn [p_payload p_hdr]. split; [|left; exact Hs].
   pose proof (firstn_le_length (Z.to_nat n) (skipn off l)). lia.
 Qed.
 
@@ -133,7 +157,7 @@ Proof.
   destruct o; cbn [stR]; [|sr_via E|exact E|exact E].
   unfold on_packet_sent, emit.
   destruct (seq_gt _ _); try destruct (seq_gt _ _);
-    (eapply sr_sent; [exact E|apply pktC_data; exact Hsz|exact eq_refl ..]).
+    (eapply sr_sent; [exact E| |exact eq_refl ..]; intros _; apply pktC_data; [exact eq_refl|exact Hsz]).
 Qed.
 
 Lemma on_rto_reactions_sr : forall (s s1 : vsock), on_rto_reactions cci s = Some s1 -> sr s s1.
@@ -365,31 +389,32 @@ Qed.
 
 Lemma ir0_upd : forall s a b, ir0 s a ->
   ssr (v_ss a) (v_ss b) -> v_inbox b = v_inbox a -> ss_offset (v_segs b) = ss_offset (v_segs a) ->
-  subseg (ss_segs (v_segs b)) (ss_segs (v_segs a)) -> v_out b = v_out a -> ir0 s b.
+  subseg (ss_segs (v_segs b)) (ss_segs (v_segs a)) -> v_out b = v_out a -> v_opts b = v_opts a -> ir0 s b.
 Proof.
-  intros s a b H E1 E2 E3 E4 E5. eapply ir0_trans; [exact H|]. unfold ir0, outC.
-  rewrite E5. auto.
+  intros s a b H E1 E2 E3 E4 E5 E6. eapply ir0_trans; [exact H|]. unfold ir0, outC, tb.
+  rewrite E5, E6. auto.
 Qed.
 
 Lemma ir0_core : forall s a b, ir0 s a -> core b = core a -> ir0 s b.
 Proof.
-  intros s a b H E. unfold core in E. injection E as E1 E2 E3 E4.
-  eapply ir0_upd; [exact H|apply ssr_eq; exact E1|exact E3|rewrite E2; reflexivity|rewrite E2; apply subseg_refl|exact E4].
+  intros s a b H E. unfold core in E. injection E as E1 E2 E3 E4 E5.
+  eapply ir0_upd; [exact H|apply ssr_eq; exact E1|exact E3|rewrite E2; reflexivity|rewrite E2; apply subseg_refl|exact E4|exact E5].
 Qed.
 
 Lemma ir0_same : forall s a b, ir0 s a -> v_ss b = v_ss a -> v_segs b = v_segs a ->
-  v_inbox b = v_inbox a -> v_out b = v_out a -> ir0 s b.
-Proof. intros s a b H E1 E2 E3 E4. eapply ir0_core; [exact H|]. unfold core. congruence. Qed.
+  v_inbox b = v_inbox a -> v_out b = v_out a -> v_opts b = v_opts a -> ir0 s b.
+Proof. intros s a b H E1 E2 E3 E4 E5. eapply ir0_core; [exact H|]. unfold core. congruence. Qed.
 
 Ltac ir0_leaf := eapply ir0_same; [apply ir0_refl | exact eq_refl ..].
 Ltac ir0_via H := eapply ir0_same; [exact H | exact eq_refl ..].
 
 Lemma state_table_core : forall (s : vsock) h,
   match state_table s h with TblDrop s1 | TblErr s1 _ | TblContinue s1 =>
-    v_ss s1 = v_ss s /\ v_segs s1 = v_segs s /\ v_inbox s1 = v_inbox s /\ v_out s1 = v_out s end.
+    v_ss s1 = v_ss s /\ v_segs s1 = v_segs s /\ v_inbox s1 = v_inbox s /\ v_out s1 = v_out s /\
+    v_opts s1 = v_opts s end.
 Proof.
   intros s h. unfold state_table, restart_remote_inactivity_timer.
-  repeat break_match; (split; [|split; [|split]]); exact eq_refl.
+  repeat break_match; (split; [|split; [|split; [|split]]]); exact eq_refl.
 Qed.
 
 Lemma sts_ir0 : forall A (s : vsock) (m : step A), sts s m -> stR ir0 s m.
@@ -401,7 +426,7 @@ Proof.
   intros s m. unfold process_incoming_message.
   pose proof (state_table_core s (m_hdr m)) as T.
   destruct (state_table s (m_hdr m)) as [s1|s1 e|s1]; cbn [stR] in *;
-    destruct T as (T1 & T2 & T3 & T4);
+    destruct T as (T1 & T2 & T3 & T4 & T5);
     try (eapply ir0_same; [apply ir0_refl|assumption ..]).
   destruct (remove_up_to_ack _ _ _ _) as [segs1 res] eqn:Er.
   destruct (match is_recovering _, _ with | false, Some rtt => _ | _, _ => _ end) as [rtte1|]; [|exact I].
@@ -417,6 +442,7 @@ Proof.
     - change (ss_offset segs2 = ss_offset (v_segs s1)). congruence.
     - change (subseg (ss_segs segs2) (ss_segs (v_segs s1))).
       eapply subseg_trans; [apply sle_subseg; exact R3|exact R1].
+    - exact eq_refl.
     - exact eq_refl. }
   clearbody s2.
   destruct (ch_type (m_hdr m)); try exact F2.
@@ -425,7 +451,7 @@ Proof.
     match goal with |- context [rx_add_remove (v_rx ?x)] => set (s3 := x) end.
     assert (F3 : ir0 s s3).
     { eapply ir0_upd; [exact F2|..]; subst s3;
-        [exact (ssr_delivered _ _)|exact eq_refl|exact eq_refl|exact (subseg_refl _)|exact eq_refl]. }
+        [exact (ssr_delivered _ _)|exact eq_refl|exact eq_refl|exact (subseg_refl _)|exact eq_refl|exact eq_refl]. }
     clearbody s3.
     destruct (rx_add_remove _ _ _ _) as [[rx1 ar] w] eqn:Ea.
     assert (F4 : ir0 s (add_wakes (set_rx s3 rx1) (rx_wakes w))) by (unfold add_wakes; ir0_via F3).
@@ -485,21 +511,21 @@ Qed.
 
 Lemma ir_upd : forall s a b, ir s a ->
   v_ss b = v_ss a -> v_inbox b = v_inbox a -> ss_offset (v_segs b) = ss_offset (v_segs a) ->
-  sle (ss_segs (v_segs b)) (ss_segs (v_segs a)) -> v_out b = v_out a -> ir s b.
+  sle (ss_segs (v_segs b)) (ss_segs (v_segs a)) -> v_out b = v_out a -> v_opts b = v_opts a -> ir s b.
 Proof.
-  intros s a b H E1 E2 E3 E4 E5. eapply ir_trans; [exact H|]. apply sr_ir. unfold sr, outC.
-  rewrite E5. auto.
+  intros s a b H E1 E2 E3 E4 E5 E6. eapply ir_trans; [exact H|]. apply sr_ir. unfold sr, outC, tb.
+  rewrite E5, E6. auto.
 Qed.
 
 Lemma ir_core : forall s a b, ir s a -> core b = core a -> ir s b.
 Proof.
-  intros s a b H E. unfold core in E. injection E as E1 E2 E3 E4.
-  eapply ir_upd; [exact H|exact E1|exact E3|rewrite E2; reflexivity|rewrite E2; apply sle_refl|exact E4].
+  intros s a b H E. unfold core in E. injection E as E1 E2 E3 E4 E5.
+  eapply ir_upd; [exact H|exact E1|exact E3|rewrite E2; reflexivity|rewrite E2; apply sle_refl|exact E4|exact E5].
 Qed.
 
 Lemma ir_same : forall s a b, ir s a -> v_ss b = v_ss a -> v_segs b = v_segs a ->
-  v_inbox b = v_inbox a -> v_out b = v_out a -> ir s b.
-Proof. intros s a b H E1 E2 E3 E4. eapply ir_core; [exact H|]. unfold core. congruence. Qed.
+  v_inbox b = v_inbox a -> v_out b = v_out a -> v_opts b = v_opts a -> ir s b.
+Proof. intros s a b H E1 E2 E3 E4 E5. eapply ir_core; [exact H|]. unfold core. congruence. Qed.
 
 Ltac ir_leaf := eapply ir_same; [apply ir_refl | exact eq_refl ..].
 Ltac ir_via H := eapply ir_same; [exact H | exact eq_refl ..].
@@ -509,16 +535,17 @@ Proof. intros A s m H. destruct m; cbn [stR] in *; auto using sr_ir. Qed.
 
 (* a message popped from a non-empty inbox *)
 Lemma ir0_ir_pop : forall (s a s1 : vsock), v_inbox s <> [] ->
-  v_ss a = v_ss s -> v_segs a = v_segs s -> v_out a = v_out s -> ir0 a s1 -> ir s s1.
+  v_ss a = v_ss s -> v_segs a = v_segs s -> v_out a = v_out s -> v_opts a = v_opts s -> ir0 a s1 -> ir s s1.
 Proof.
-  unfold ir0, ir, outC. intros s a s1 Hne E1 E2 E3 (A1 & A2 & A3 & A4 & A5).
-  rewrite E1, E2, E3 in *. split; [exact A1|]. split; [exact A3|]. split; [exact A4|].
+  unfold ir0, ir, outC, tb. intros s a s1 Hne E1 E2 E3 E4 (A1 & A2 & A3 & A4 & A5).
+  rewrite E1, E2, E3, E4 in *. split; [exact A1|]. split; [exact A3|]. split; [exact A4|].
   split; [exact A5|]. intro E. contradiction.
 Qed.
 
 Lemma stR_ir0_ir_pop : forall A (m : step A) (s a : vsock), v_inbox s <> [] ->
-  v_ss a = v_ss s -> v_segs a = v_segs s -> v_out a = v_out s -> stR ir0 a m -> stR ir s m.
-Proof. intros A m s a Hne E1 E2 E3 H. destruct m; cbn [stR] in *; eauto using ir0_ir_pop. Qed.
+  v_ss a = v_ss s -> v_segs a = v_segs s -> v_out a = v_out s -> v_opts a = v_opts s ->
+  stR ir0 a m -> stR ir s m.
+Proof. intros A m s a Hne E1 E2 E3 E4 H. destruct m; cbn [stR] in *; eauto using ir0_ir_pop. Qed.
 
 Lemma recv_loop_ir : forall fuel (s : vsock) acc, stR ir s (recv_loop cci fuel s acc).
 Proof.
@@ -567,7 +594,7 @@ Proof.
     destruct (calc_pipe _ _ _ _ _) as [[[segs' pipe] recalc]|] eqn:Ec; [|exact I].
     destruct (calc_pipe_sle _ _ _ _ _ _ _ _ Ec) as [R1 R2].
     cbn [stR]. unfold set_recovering.
-    eapply ir_upd; [apply ir_refl|exact eq_refl|exact eq_refl|exact R2|exact R1|exact eq_refl].
+    eapply ir_upd; [apply ir_refl|exact eq_refl|exact eq_refl|exact R2|exact R1|exact eq_refl|exact eq_refl].
 Qed.
 
 (* ------------------------------------------------------------------ the invariants *)
@@ -677,22 +704,24 @@ Qed.
 Definition splitQ (e : Z) (s s' : vsock) : Prop :=
   J0 s' /\ NP e (min_ss (v_ss s')) (ss_segs (v_segs s')) /\ PP e (min_ss (v_ss s')) (ss_segs (v_segs s')) /\
   v_out s' = v_out s /\ v_inbox s' = v_inbox s /\
-  (is_remote_fin_or_later (v_state s) = true -> v_segs s' = v_segs s).
+  (is_remote_fin_or_later (v_state s) = true -> v_segs s' = v_segs s) /\
+  v_opts s' = v_opts s.
 
 Lemma splitQ_mk : forall e (s b : vsock) ss' segs',
   v_ss b = ss' -> v_segs b = segs' -> sb ss' -> szC C (ss_segs segs') -> tok (ss_segs segs') ->
   til (ss_segs segs') (ss_offset segs') -> NP e (min_ss ss') (ss_segs segs') -> PP e (min_ss ss') (ss_segs segs') ->
   v_out b = v_out s -> v_inbox b = v_inbox s ->
-  (is_remote_fin_or_later (v_state s) = true -> segs' = v_segs s) -> splitQ e s b.
+  (is_remote_fin_or_later (v_state s) = true -> segs' = v_segs s) -> v_opts b = v_opts s -> splitQ e s b.
 Proof.
-  intros e s b ss' segs' E1 E2 H1 H2 H3 H4 H5 H6 H7 H8 H9. unfold splitQ, J0. rewrite E1, E2. tauto.
+  intros e s b ss' segs' E1 E2 H1 H2 H3 H4 H5 H6 H7 H8 H9 H10. unfold splitQ, J0. rewrite E1, E2. tauto.
 Qed.
 
 Lemma splitQ_same : forall e (s b : vsock),
   J0 s -> NP e (min_ss (v_ss s)) (ss_segs (v_segs s)) -> PP e (min_ss (v_ss s)) (ss_segs (v_segs s)) ->
-  v_ss b = v_ss s -> v_segs b = v_segs s -> v_inbox b = v_inbox s -> v_out b = v_out s -> splitQ e s b.
+  v_ss b = v_ss s -> v_segs b = v_segs s -> v_inbox b = v_inbox s -> v_out b = v_out s ->
+  v_opts b = v_opts s -> splitQ e s b.
 Proof.
-  intros e s b (H1 & H2 & H3 & H4) H5 H6 E1 E2 E3 E4.
+  intros e s b (H1 & H2 & H3 & H4) H5 H6 E1 E2 E3 E4 E5.
   apply (splitQ_mk e s b (v_ss s) (v_segs s)); auto.
 Qed.
 
@@ -707,11 +736,11 @@ Proof.
   destruct (_ =? 0); [cbn [stR]; apply splitQ_same; auto; exact eq_refl|].
   match goal with |- context [is_remote_fin_or_later (v_state ?x)] => set (s1 := x) end.
   assert (K : v_ss s1 = v_ss s /\ v_segs s1 = v_segs s /\ v_inbox s1 = v_inbox s /\ v_out s1 = v_out s /\
-              v_state s1 = v_state s).
+              v_state s1 = v_state s /\ v_opts s1 = v_opts s).
   { subst s1. destruct (_ && _); [|repeat (split; [exact eq_refl|]); exact eq_refl].
     destruct (grow _ _) as [tx1 g]. destruct g; [destruct (wake_writer tx1) as [tx2 w]|];
       repeat (split; [exact eq_refl|]); exact eq_refl. }
-  clearbody s1. destruct K as (K1 & K2 & K3 & K4 & K5).
+  clearbody s1. destruct K as (K1 & K2 & K3 & K4 & K5 & K6).
   destruct (is_remote_fin_or_later (v_state s1)) eqn:Efin.
   { cbn [stR]. apply splitQ_same; assumption. }
   assert (Hrf : forall t : segments, is_remote_fin_or_later (v_state s) = true -> t = v_segs s)
@@ -723,7 +752,7 @@ Proof.
      v_ss s2 = ss2 -> v_segs s2 = segs2 ->
      sb ss2 -> szC C (ss_segs segs2) -> noup (ss_segs segs2) -> til (ss_segs segs2) (ss_offset segs2) ->
      NP e (min_ss ss2) (ss_segs segs2) -> PP e (min_ss ss2) (ss_segs segs2) ->
-     v_out s2 = v_out s -> v_inbox s2 = v_inbox s ->
+     v_out s2 = v_out s -> v_inbox s2 = v_inbox s -> v_opts s2 = v_opts s ->
      stR (splitQ e) s
        (if Z.of_nat (length (ring (v_tx s))) <? ss_len_bytes (v_segs s2)
         then SErr s2 (ErrBug BugInBufferComputations)
@@ -734,7 +763,7 @@ Proof.
                  SOk (set_unsegmented (VSockRec.set_segs (set_ss s2 ss') segs') remaining) tt
              | None => SPanic
              end)).
-  { intros s2 ss2 segs2 E1 E2 A1 A2 A3 A4 A5 A6 A7 A8.
+  { intros s2 ss2 segs2 E1 E2 A1 A2 A3 A4 A5 A6 A7 A8 A9.
     destruct (_ <? _).
     { cbn [stR]. apply (splitQ_mk e s s2 ss2 segs2); auto using noup_tok. }
     rewrite E1, E2.
@@ -757,6 +786,7 @@ Proof.
     + apply sb_probe_failed; exact HJ1.
     + destruct (seq_gt _ _); exact K4.
     + destruct (seq_gt _ _); exact K3.
+    + destruct (seq_gt _ _); exact K6.
   - (* a probe is outstanding *)
     subst segs1. cbn [stR]. apply splitQ_same; unfold J0; auto.
   - destruct Hpe as [-> Hl].
@@ -830,7 +860,10 @@ Proof.
 Qed.
 
 Lemma J_splitQ : forall e s s', splitQ e s s' -> J s -> J s'.
-Proof. intros e s s' (A1 & _ & _ & A4 & _) (_ & B2). split; [exact A1|]. unfold outC in *. rewrite A4. exact B2. Qed.
+Proof.
+  intros e s s' (A1 & _ & _ & A4 & _ & _ & A7) (_ & B2). split; [exact A1|]. unfold outC, tb in *.
+  rewrite A4, A7. exact B2.
+Qed.
 
 Theorem poll_J : forall (s s' : vsock) r, poll cci s = (s', r) -> J (poll_init s) -> J s'.
 Proof.
@@ -956,7 +989,7 @@ Proof.
   - intros s0 rx1 w H0. exact H0.
   - intros s0 [HJ (X1 & X2 & X3)] HB. pose proof (split_c14 e s0 HJ X1 X2) as Hs.
     destruct (split_tx_queue_into_segments cci s0) as [s5 u|s5 e5|]; cbn [stR stU] in *; auto.
-    destruct Hs as (A1 & A2 & A3 & A4 & A5 & A6). split; [exact A1|]. unfold X. rewrite A5.
+    destruct Hs as (A1 & A2 & A3 & A4 & A5 & A6 & _). split; [exact A1|]. unfold X. rewrite A5.
     split; [exact A2|]. split; [exact A3|].
     destruct HB as [HB|HB]; [left; exact HB|]. rewrite (A6 HB). exact X3.
   - intros s0 H0. eapply (stU_of_stR gr); [intros b Hb; apply St_gr; exact Hb|exact H0|].
@@ -983,16 +1016,21 @@ Proof. intro c. unfold cC, ceiling_of. lia. Qed.
 Lemma cF_le_cC : forall c, cF c <= cC c.
 Proof. intro c. unfold cF, cC, floor_of. lia. Qed.
 
+Definition cT (c : vconfig) : Z := cC c + UTP_HEADER.
+
 (* the invariant of every reachable state *)
-Definition c14_inv (c : vconfig) (s : vsock) : Prop := J0 (cC c) (cF c) s.
+Definition c14_inv (c : vconfig) (s : vsock) : Prop :=
+  J0 (cC c) (cF c) s /\ o_tmp_buf_len (v_opts s) = cT c.
 
 Lemma c14_inv_vsock_new : forall mk c s, vsock_new cci mk c = Some s -> c14_inv c s.
 Proof.
   intros mk c s H. unfold vsock_new in H.
   destruct (match (if vc_incoming c then None else _) with Some r => _ | None => _ end); [|discriminate].
-  inversion H; subst. unfold c14_inv, J0, sb. cbn [v_ss v_segs segments_new ss_segs ss_offset].
+  inversion H; subst. unfold c14_inv, J0, sb, cT.
+  cbn [v_ss v_segs segments_new ss_segs ss_offset v_opts o_tmp_buf_len].
   destruct (new_shape (ss_config_of c)) as (E1 & E2 & _). unfold ss_config_of in E1, E2.
   rewrite E1, E2. fold (ss_config_of c). fold (cF c). fold (cC c). pose proof (cF_le_cC c).
+  split; [|unfold UTP_HEADER, cC; f_equal; exact (proj1 (proj2 (new_shape (ss_config_of c))))].
   split; [lia|]. split; [constructor|]. split; exact I.
 Qed.
 
@@ -1021,16 +1059,29 @@ Proof.
 Qed.
 
 Lemma J_poll_init : forall c (s : vsock) sc,
-  c14_inv c s -> J (cC c) (cF c) (poll_init (VSockRec.set_sends s sc)).
-Proof. intros c s sc H. split; [exact H|]. constructor. Qed.
+  c14_inv c s -> J (cC c) (cF c) (cT c) (poll_init (VSockRec.set_sends s sc)).
+Proof. intros c s sc [H _]. split; [exact H|]. intros _. constructor. Qed.
+
+(* what a poll leaves: the invariant, and the datagrams it emitted are bounded *)
+Lemma poll_c14 : forall c (s : vsock) sc s' r,
+  c14_inv c s -> poll cci (VSockRec.set_sends s sc) = (s', r) ->
+  c14_inv c s' /\ Forall (pktC (cC c) (cT c)) (v_out s').
+Proof.
+  intros c s sc s' r H E.
+  pose proof (poll_J (cC c) (cF c) (cT c) (cF_pos c) (cC_nonneg c) _ _ _ E (J_poll_init c s sc H)) as [HJ HO].
+  destruct (poll_pframe0 cci _ _ _ E) as (P1 & _).
+  assert (Hb : o_tmp_buf_len (v_opts s') = cT c) by (rewrite P1; exact (proj2 H)).
+  split; [split; assumption|]. apply HO. exact Hb.
+Qed.
 
 Theorem c14_inv_vstep : forall c (s : vsock) o, c14_inv c s -> c14_inv c (vstep_state cci s o).
 Proof.
-  intros c s o H. pose proof (vstep_nonpoll_c14 s o) as K.
-  destruct o; try (destruct K as [K1 K2]; unfold c14_inv, J0 in *; rewrite K1, K2; exact H).
+  intros c s o H. pose proof (vstep_nonpoll_c14 s o) as K. pose proof (vstep_nonpoll_keeps cci s o) as K'.
+  destruct o; try (destruct K as [K1 K2]; destruct K' as (K3 & _); unfold c14_inv, J0 in *;
+                   rewrite K1, K2, K3; exact H).
   destruct (poll cci (VSockRec.set_sends s script)) as [s' r] eqn:E.
   destruct (vstep_poll cci s script s' r E) as [V1 _]. rewrite V1.
-  apply (poll_J (cC c) (cF c) (cF_pos c) (cC_nonneg c) _ _ _ E). apply J_poll_init. exact H.
+  exact (proj1 (poll_c14 c s script s' r H E)).
 Qed.
 
 (* only a poll has a poll result *)
@@ -1053,10 +1104,40 @@ Proof.
                    try reflexivity; exfalso; first [exact (N _ _ _ _ E) | exact (N _ _ _ _ eq_refl)]).
   destruct (poll cci (VSockRec.set_sends s script)) as [s' r] eqn:E.
   rewrite (fstep_of_poll cci s script s' r E). unfold c14_datagram_ok. cbn [fs_result].
-  pose proof (poll_J (cC c) (cF c) (cF_pos c) (cC_nonneg c) _ _ _ E (J_poll_init c s script H)) as [_ HO].
+  destruct (poll_c14 c s script s' r H E) as [_ HO].
   apply forallb_forall. intros p Hp. apply in_map_iff in Hp. destruct Hp as (q & <- & Hq).
-  apply in_rev in Hq. unfold outC in HO. rewrite Forall_forall in HO. specialize (HO q Hq).
-  apply Z.leb_le. exact HO.
+  apply in_rev in Hq. rewrite Forall_forall in HO. destruct (HO q Hq) as [HO1 _].
+  apply Z.leb_le. exact HO1.
+Qed.
+
+(* ================================================================== c14_wire_ok: the extension counted *)
+Theorem c14_wire_ok_step : forall c (s : vsock) o,
+  c14_inv c s -> c14_wire_ok c (fstep_of cci s o) = true.
+Proof.
+  intros c s o H. pose proof (nonpoll_result s o) as N.
+  destruct o; try (unfold c14_wire_ok;
+                   match goal with |- match ?x with _ => _ end = true => destruct x eqn:E end;
+                   try reflexivity; exfalso; first [exact (N _ _ _ _ E) | exact (N _ _ _ _ eq_refl)]).
+  destruct (poll cci (VSockRec.set_sends s script)) as [s' r] eqn:E.
+  rewrite (fstep_of_poll cci s script s' r E). unfold c14_wire_ok. cbn [fs_result].
+  destruct (poll_c14 c s script s' r H E) as [_ HO].
+  apply forallb_forall. intros p Hp. apply in_map_iff in Hp. destruct Hp as (q & <- & Hq).
+  apply in_rev in Hq. rewrite Forall_forall in HO. destruct (HO q Hq) as [HO1 HO2].
+  unfold fq_wire_len, fpacket_of. cbn [fq_hdr fq_plen]. fold (cC c).
+  unfold cT, UTP_HEADER, SACK_EXT_LEN in *.
+  destruct (ch_sack (p_hdr q)) as [k|].
+  - destruct HO2 as [HO2|[HO2 HO3]]; [discriminate|]. rewrite HO2. cbn [length Z.of_nat].
+    apply andb_true_intro. split; [apply Z.leb_le; lia|reflexivity].
+  - rewrite andb_true_r. apply Z.leb_le. lia.
+Qed.
+
+Theorem c14_wire_ok_trace : forall mk c (s0 : vsock) ops,
+  vsock_new cci mk c = Some s0 -> forallb (c14_wire_ok c) (ftrace cci s0 ops) = true.
+Proof.
+  intros mk c s0 ops H0. apply (ftrace_forallb cci (c14_inv c)).
+  - intros s o Hi. apply c14_wire_ok_step; exact Hi.
+  - intros s o Hi. apply c14_inv_vstep; exact Hi.
+  - eapply c14_inv_vsock_new; exact H0.
 Qed.
 
 Theorem c14_datagram_ok_trace : forall mk c (s0 : vsock) ops,
@@ -1101,9 +1182,10 @@ Proof.
   destruct (poll cci (VSockRec.set_sends s script)) as [s' r] eqn:E.
   rewrite (fstep_of_poll cci s script s' r E). unfold c14_segments_ok. cbn [fs_result fs_post fs_pre].
   destruct r; try reflexivity.
+  destruct H as [H Hb].
   assert (HS : St (cC c) (cF c) (ss_offset (v_segs s)) (poll_init (VSockRec.set_sends s script))).
   { split; [exact H|]. exact (J0_X_start (cC c) (cF c) s H). }
-  pose proof (poll_St (cC c) (cF c) (cF_pos c) (cC_nonneg c) _ _ _ HS E) as ((S1 & S2 & S3 & S4) & S5 & S6 & _).
+  pose proof (poll_St (cC c) (cF c) (cT c) (cF_pos c) (cC_nonneg c) _ _ _ HS E) as ((S1 & S2 & S3 & S4) & S5 & S6 & _).
   cbn [fp_of_vsock f_segs f_seg_offset f_mss f_max_ss]. unfold mss.
   destruct S1 as [[B1 B2] B3]. fold (cC c) (cF c).
   repeat (apply andb_true_intro; split).
@@ -1127,10 +1209,11 @@ Qed.
 Theorem c14_step : forall c (s : vsock) o,
   c14_inv c s ->
   c14_inv c (vstep_state cci s o) /\
-  c14_datagram_ok c (fstep_of cci s o) = true /\ c14_segments_ok c (fstep_of cci s o) = true.
+  c14_datagram_ok c (fstep_of cci s o) = true /\ c14_segments_ok c (fstep_of cci s o) = true /\
+  c14_wire_ok c (fstep_of cci s o) = true.
 Proof.
   intros c s o H. split; [apply c14_inv_vstep; exact H|].
-  split; [apply c14_datagram_ok_step|apply c14_segments_ok_step]; exact H.
+  split; [apply c14_datagram_ok_step|split; [apply c14_segments_ok_step|apply c14_wire_ok_step]]; exact H.
 Qed.
 
 End WithCC.
@@ -1176,10 +1259,32 @@ Lemma c14_nonvacuous :
     existsb (probe_failed_step cfg) (wtrace w cfg ops) = true /\
     existsb (big_datagram cfg) (wtrace w cfg ops) = true /\
     forallb (c14_datagram_ok cfg) (wtrace w cfg ops) = true /\
-    forallb (c14_segments_ok cfg) (wtrace w cfg ops) = true.
+    forallb (c14_segments_ok cfg) (wtrace w cfg ops) = true /\
+    forallb (c14_wire_ok cfg) (wtrace w cfg ops) = true.
 Proof.
   exists 1048576, (wcfg 1048576), c14_ops.
   split; [vm_compute; reflexivity|].
   split; [repeat constructor|].
   repeat split; vm_compute; reflexivity.
+Qed.
+
+(* a datagram with the selective-ACK extension is emitted (out-of-order data from the peer) *)
+Definition c14_sack_ops : list vop := [VoPoll []; VoDeliver (wmsg ST_DATA 3 100 100); VoPoll []].
+
+Definition sack_datagram (st : fstep) : bool :=
+  match fs_result st with
+  | FrPoll _ pkts _ _ => existsb (fun p => match ch_sack (fq_hdr p) with Some _ => true | None => false end) pkts
+  | _ => false
+  end.
+
+Lemma c14_wire_nonvacuous :
+  exists w cfg ops,
+    vconfig_ok cfg = true /\ Forall op_msg_ok ops /\
+    existsb sack_datagram (wtrace w cfg ops) = true /\
+    forallb (c14_wire_ok cfg) (wtrace w cfg ops) = true.
+Proof.
+  exists 1048576, (wcfg 1048576), c14_sack_ops.
+  split; [vm_compute; reflexivity|].
+  split; [repeat constructor; cbv [op_msg_ok msg_ok wmsg m_hdr ch_type m_payload]; vm_compute; discriminate|].
+  split; vm_compute; reflexivity.
 Qed.
